@@ -792,7 +792,7 @@ def gen_named_ruleset(rng, idx):
 def named_sessions(ctx, dist, samples):
     """The stage: rulesets x name families x interleaved histories, each history in its own scratch copy of the code tree."""
     vio, evaluations, nontrivial = [], 0, 0
-    nrs, nhist = ctx.scale(12, 80), ctx.scale(5, 8)
+    nrs, nhist = ctx.scale(10, 80), ctx.scale(4, 8)
     probe = common.scratch()
     pre = common.scratch()
     tries, jobs = 0, []
@@ -977,6 +977,8 @@ def run(ctx):
     two_cases = []
     ms_rulesets = []
     evaluations = nontrivial = 0
+    import time
+    t_explore = time.time()
     for i in range(nrs):
         rs, om, buckets = gen_case(ctx.rng, i)
         v, e, n = explore(ctx, rs, om, buckets, sc, dist, cases, samples, max_cuts, two_cases, ms_rulesets)
@@ -984,7 +986,10 @@ def run(ctx):
         evaluations += e
         nontrivial += n
     # ---- named sessions interleaved through the real pcfg_guesser.main()
+    t_named = time.time()
     v, e, n = named_sessions(ctx, dist, samples)
+    dist["named_wall_s"] = round(time.time() - t_named, 1)
+    dist["explore_wall_s"] = round(t_named - t_explore, 1)
     vio += v
     evaluations += e
     nontrivial += n
